@@ -165,6 +165,18 @@ def run_case(case, bus, ex):
                     bus.outside("h1_decomposition", "floor active")
                     continue
                 bus.judge("h1_decomposition", rel(got, plain + gpart), TOL * 10, (hname,) + sigb, sample=dict(info, function=hname, plain=plain, gradient_part=gpart), witness=dict(info, function=hname, got=got, plain=plain, gradient_part=gpart))
+            # the same with band limits: both parts are restricted to the documented band [low, high]
+            for (lo, hi) in ((1, max(1, N // 4)), (0, max(1, N // 3)), (None, max(1, N // 4)), (2, None)):
+                opts = {k: val for k, val in (("low", lo), ("high", hi)) if val is not None}
+                for hname, fname in H1.items():
+                    p, q, mode = FOURIER[fname]
+                    plain, l1 = MR.fourier(u, v, L, p, q, mode, **opts)
+                    gpart, l2 = MR.fourier(u, v, L, p, q, mode, deriv=1, **opts)
+                    if max(l1, l2) > 1e-13 or not np.isfinite(plain + gpart):
+                        bus.outside("h1_decomposition", "floor active / empty band")
+                        continue
+                    got = float(getattr(M, hname)(J(u), J(v), domain_extent=L, **opts))
+                    bus.judge("h1_decomposition", rel(got, plain + gpart), TOL * 10, (hname, "band", lo, hi) + sigb, witness=dict(info, function=hname, band=[lo, hi], got=got, plain=plain, gradient_part=gpart))
         else:
             bus.outside("h1_decomposition", "even N with Nyquist content")
         # ---------------- correlation
